@@ -181,6 +181,11 @@ def compose(shs, rng, tier):
     for s in one + rng.sample(two, min(len(two), 60 if quick else 600)):
         for p in ("tight", "spare"):
             add(mk(s, [rng.choice(["inplace", "append", "all", "reslice"]) for _ in s["flags"]], p, BIG))
+    # (e) the handlers of a mux registered under one and the same filter string (registrations must not be merged)
+    for s in rng.sample([x for x in multi if x["top"] in ("mux", "amux")], 60 if quick else 600):
+        c_ = mk(s, [rng.choice(["inplace", "append", "all", "topic"]) for _ in s["flags"]], rng.choice(ALLP), 1)
+        c_["sameFilter"] = True
+        cases.setdefault(key(c_) + "/same", c_)
     out = []
     for i, k in enumerate(sorted(cases)):
         c = cases[k]
